@@ -709,6 +709,22 @@ func walkCase(id int, kind string, in walkIn, splits bool) O {
 
 func genWalk(id int, kind string, b bias) O {
 	a := genSpec(b, 2+rng.Intn(2), false)
+	if p(0.1) {
+		// a guard that fails on a message branch whose pattern matches: the failed step has consumed the message, and the
+		// walk goes on at the error node (which may listen for messages itself) with the NEXT message
+		n0 := &mach.ANode{BType: "message"}
+		if p(0.4) {
+			n0.Branches = append(n0.Branches, mach.ABranch{HasPat: true, Pat: map[string]interface{}{"nomatch": true}, Target: "n1"})
+		}
+		n0.Branches = append(n0.Branches, mach.ABranch{HasPat: true, Pat: pick([]interface{}{"?any", map[string]interface{}{}, map[string]interface{}{"k": "?x"}}),
+			Guard: []mach.Op{{Name: pickS([]string{"throw", "retscalar", "emitbad"})}}, Target: "n1"})
+		a.Nodes["n0"] = n0
+		if p(0.6) {
+			a.Nodes["error"] = &mach.ANode{BType: "message", Branches: []mach.ABranch{
+				{HasPat: true, Pat: pick([]interface{}{"?m", map[string]interface{}{"k": "?again"}, map[string]interface{}{}}), Target: pickS([]string{"n1", "n0", "error"})}}}
+		}
+		a.EN = ""
+	}
 	in := walkIn{a: a, node: "n0", bs: genBs(b), nilCtl: p(0.04)}
 	for i, n := 0, rng.Intn(5); i < n; i++ {
 		in.msgs = append(in.msgs, pickMsg(kind))
